@@ -11,7 +11,9 @@ Contents are unique per write so a byte string identifies the write that produce
 import hashlib
 import json
 
-SHAPES = ("burst", "lockstep", "starveE0", "starveE1", "starveS", "uniform", "intake", "seq")
+SHAPES = ("burst", "lockstep", "starveE0", "starveE1", "starveS", "uniform", "intake", "seq", "droughtE0", "droughtE1")
+# droughtE<k>: like starveE<k> but with long stretches (6-14 steps) in which side k's events are not taken in while the
+# sync loop keeps running - retry limits and punt counters are reached before the other side's news arrives
 STEPS = ("E0", "E1", "S")
 
 
@@ -275,6 +277,9 @@ class Gen:
             return [["Q"]]
         if shape == "intake":
             return [["E0"], ["E1"]]
+        if shape.startswith("drought"):
+            allowed = [s for s in STEPS if s != shape[7:]]
+            return [[rng.choice(allowed + ["S"])] for _ in range(rng.randrange(6, 15))]
         if shape.startswith("starve"):
             allowed = [s for s in STEPS if s != shape[6:]]
             return [[rng.choice(allowed)] for _ in range(rng.randrange(0, 4))]
@@ -429,6 +434,79 @@ class Gen:
                     quiet()
         return {"family": "REUSE2" if two_sided else "REUSE%d" % side0, "flavour": flavour, "shape": shape, "base": base,
                 "base_side": base_side, "sched": sched, "expect": m.t, "reused": reused}
+
+    def case_deepmk(self, flavour, shape, nops):
+        """DEEPMK: one side creates a folder two or more levels below a folder D (under an existing, unchanged sub-folder) and
+        renames D in the same window; the other side works on entries of its own.  HD by the letter.  Measured on the pinned
+        tree: tolerated when the new folder's direct parent is an existing unchanged folder (the engine's parent-before-child
+        rule walks up to the renamed ancestor) - unlike a mkdir directly inside the renamed folder, which fails."""
+        rng = self.rng
+        base_side = rng.randrange(2)
+        base, m = self.base_tree(base_side, 0)
+
+        def add(op):
+            assert m.apply(op), op
+            op["obj"] = m.new_obj(op["path"])
+            base.append(op)
+        d = self.names.fresh("b")
+        sub = d + "/" + self.names.fresh("b")
+        add({"side": base_side, "op": "mkdir", "path": d})
+        add({"side": base_side, "op": "create", "path": d + "/" + self.names.fresh("b"), "data": self.contents.fresh(base_side)})
+        add({"side": base_side, "op": "mkdir", "path": sub})
+        add({"side": base_side, "op": "create", "path": sub + "/" + self.names.fresh("b"), "data": self.contents.fresh(base_side)})
+        deep = sub
+        if rng.random() < 0.4:
+            deep = sub + "/" + self.names.fresh("b")
+            add({"side": base_side, "op": "mkdir", "path": deep})
+        others = []
+        for _ in range(rng.randrange(1, 4)):
+            nm = self.names.fresh("b")
+            add({"side": base_side, "op": "create", "path": nm, "data": self.contents.fresh(base_side)})
+            others.append(nm)
+        x = rng.randrange(2)
+        if "p" in flavour and flavour[x] != "p":
+            x = 1 - x                   # the folder owner acts on a path-id side (see docstring / DESIGN 8.3)
+        y = 1 - x
+        px = "lr"[x]
+        newdir = deep + "/" + self.names.fresh(px)
+        mine = [{"side": x, "op": "mkdir", "path": newdir}]
+        if rng.random() < 0.5:
+            mine.append({"side": x, "op": "create", "path": newdir + "/" + self.names.fresh(px), "data": self.contents.fresh(x)})
+        e = self.names.fresh(px)
+        mine.append({"side": x, "op": "rendir", "path": d, "to": e})
+        theirs = []
+        own = []
+        for _ in range(max(0, nops - len(mine))):
+            r = rng.random()
+            if r < 0.3 and others:
+                o = others.pop()
+                theirs.append({"side": y, "op": rng.choice(("delete", "write")), "path": o})
+                if theirs[-1]["op"] == "write":
+                    theirs[-1]["data"] = self.contents.fresh(y)
+                    others.append(o)
+            elif r < 0.5 and own:
+                theirs.append({"side": y, "op": "write", "path": rng.choice(own), "data": self.contents.fresh(y)})
+            else:
+                nm = self.names.fresh("lr"[y])
+                own.append(nm)
+                theirs.append({"side": y, "op": "create", "path": nm, "data": self.contents.fresh(y)})
+        seq = []
+        a, b = list(mine), list(theirs)
+        while a or b:
+            src = a if (a and (not b or rng.random() < 0.5)) else b
+            seq.append(src.pop(0))
+        sched = []
+        for op in seq:
+            if op["op"] in ("create", "mkdir"):
+                assert m.apply(op), op
+                op["obj"] = m.new_obj(op["path"])
+            else:
+                op["obj"] = m.obj.get(op["path"])
+                assert m.apply(op), op
+            sched.append(["U", op])
+            sched.extend(g for g in self.gap(shape) if g != ["Q"])
+        return {"family": "DEEPMK", "flavour": flavour, "shape": shape, "base": base, "base_side": base_side, "sched": sched,
+                "expect": m.t}
 
     def case_swap(self, flavour, shape, nops):
         """SWAP: one side exchanges the names of two (or rotates three) synchronised files through a temporary name inside
